@@ -341,8 +341,9 @@ fn main() {
     let modes: &[(&str, &str)] = if thorough { all_modes } else { &all_modes[..3] };
 
     // replay mode: one document
-    if let Ok(path) = std::env::var("VERIF_REPLAY") {
-        let doc: serde_json::Value = serde_json::from_str(&std::fs::read_to_string(&path).unwrap()).unwrap();
+    // (a case of the identity-attribute family carries no document: the whole engine is re-run for it)
+    let replay_doc: Option<serde_json::Value> = std::env::var("VERIF_REPLAY").ok().and_then(|p| std::fs::read_to_string(p).ok()).and_then(|t| serde_json::from_str(&t).ok()).filter(|d: &serde_json::Value| !d["case"]["document"].is_null());
+    if let Some(doc) = replay_doc {
         let case = &doc["case"];
         let item: AuthorizationItem = serde_json::from_value(case["document"].clone()).unwrap();
         let url = case["url"].as_str().unwrap();
@@ -547,6 +548,89 @@ fn main() {
     }
     let mut s = Arc::try_unwrap(shared).ok().unwrap().into_inner().unwrap();
 
+    // ---- identity attributes, every combination: an identity stating any subset of {user, group, process name, executable
+    // path} (16 subsets, values those of a base caller) against the base caller and callers that differ from it in exactly
+    // one attribute (or whose executable path is not valid UTF-8 where the rule's path has U+FFFD): granted iff every stated
+    // attribute equals the caller's
+    let mut id_combo_evals = 0u64;
+    {
+        use std::os::unix::ffi::OsStringExt;
+        struct Cv {
+            label: &'static str,
+            user: &'static str,
+            groups: &'static [&'static str],
+            exe: &'static [u8],
+        }
+        let base_user = "alice";
+        let base_group = "vgrp";
+        let base_exe: &[u8] = b"/opt/agent/tool";
+        let variants = [
+            Cv { label: "base", user: "alice", groups: &["alice", "vgrp"], exe: b"/opt/agent/tool" },
+            Cv { label: "other-user", user: "bob", groups: &["alice", "vgrp"], exe: b"/opt/agent/tool" },
+            Cv { label: "not-in-the-group", user: "alice", groups: &["alice"], exe: b"/opt/agent/tool" },
+            Cv { label: "other-directory-same-process-name", user: "alice", groups: &["alice", "vgrp"], exe: b"/tmp/tool" },
+            Cv { label: "other-process-name", user: "alice", groups: &["alice", "vgrp"], exe: b"/opt/agent/fetch" },
+            Cv { label: "no-groups", user: "alice", groups: &[], exe: b"/opt/agent/tool" },
+        ];
+        for mask in 0u32..16 {
+            for (stated_exe, stated_proc, exe_set) in [("/opt/agent/tool", "tool", 0usize), ("/opt/agent/\u{fffd}tool", "\u{fffd}tool", 1)] {
+                if exe_set == 1 && mask & 0b1100 == 0 {
+                    continue;
+                }
+                let identity = Identity {
+                    name: "i".into(),
+                    userName: if mask & 1 != 0 { Some(base_user.into()) } else { None },
+                    groupName: if mask & 2 != 0 { Some(base_group.into()) } else { None },
+                    processName: if mask & 4 != 0 { Some(stated_proc.into()) } else { None },
+                    exePath: if mask & 8 != 0 { Some(stated_exe.into()) } else { None },
+                };
+                let rules = AccessControlRules {
+                    privileges: Some(vec![Privilege { name: "p".into(), path: "/a".into(), queryParameters: None }]),
+                    roles: Some(vec![Role { name: "r".into(), privileges: vec!["p".into()] }]),
+                    identities: Some(vec![identity.clone()]),
+                    roleAssignments: Some(vec![RoleAssignment { role: "r".into(), identities: vec!["i".into()] }]),
+                };
+                let item = AuthorizationItem { defaultAccess: "deny".into(), mode: "enforce".into(), id: "id".into(), rules: Some(rules) };
+                let comp = ComputedAuthorizationItem::from_authorization_item(item);
+                let mut callers: Vec<(String, &str, Vec<String>, Vec<u8>)> = variants.iter().map(|v| (v.label.to_string(), v.user, v.groups.iter().map(|g| g.to_string()).collect(), v.exe.to_vec())).collect();
+                if exe_set == 1 {
+                    // the caller's path has a byte that is no UTF-8 where the rule's path has the replacement character
+                    callers = vec![("executable-path-not-utf8".into(), "alice", vec!["alice".into(), "vgrp".into()], b"/opt/agent/\x80tool".to_vec())];
+                }
+                for (label, user, groups, exe) in callers {
+                    let name: Vec<u8> = exe.rsplit(|b| *b == b'/').next().unwrap().to_vec();
+                    let cl = Claims {
+                        userId: 1001,
+                        userName: user.into(),
+                        userGroups: groups.clone(),
+                        processId: 4242,
+                        processName: OsString::from_vec(name.clone()),
+                        processFullPath: PathBuf::from(OsString::from_vec(exe.clone())),
+                        processCmdLine: String::from_utf8_lossy(&exe).to_string(),
+                        runAsElevated: false,
+                        clientIp: "127.0.0.1".into(),
+                        clientPort: 40000,
+                    };
+                    let want = (mask & 1 == 0 || user == base_user)
+                        && (mask & 2 == 0 || groups.iter().any(|g| g == base_group))
+                        && (mask & 4 == 0 || name == stated_proc.as_bytes())
+                        && (mask & 8 == 0 || exe == stated_exe.as_bytes());
+                    let _ = base_exe;
+                    let mut lg = ConnectionLogger::new(0, 0);
+                    let got = comp.is_allowed(&mut lg, hyper::Uri::from_str("/a/x").unwrap(), cl);
+                    id_combo_evals += 1;
+                    if got != want {
+                        let stated: Vec<&str> = [(1, "user"), (2, "group"), (4, "process name"), (8, "executable path")].iter().filter(|(b, _)| mask & b != 0).map(|(_, n)| *n).collect();
+                        s.res.violation(
+                            &format!("identity-attributes:got-{}-want-{}", if got { "allow" } else { "deny" }, if want { "allow" } else { "deny" }),
+                            &format!("identity stating {:?} (values of the base caller: user alice, group vgrp, process {stated_proc:?}, path {stated_exe:?}); caller '{label}' (user {user}, groups {groups:?}, executable {:?}): decision {}, every stated attribute equals the caller's: {want}", stated, String::from_utf8_lossy(&exe), if got { "allow" } else { "deny" }),
+                            json!({"family": "identity-attribute-combinations", "stated": stated, "caller": label, "rule_exe_path": stated_exe}),
+                        );
+                    }
+                }
+            }
+        }
+    }
     // C03 decision half lives in e1_authz; here only C02
     let (evals, docs_n, ords, nontriv, outcomes, skipped) = (s.evals, s.docs, s.orderings, s.nontrivial.len(), s.outcomes, s.skipped_unspecified);
     let res = &mut s.res;
@@ -556,6 +640,7 @@ fn main() {
     res.cov("document_orderings_flattened", ords);
     res.cov("decisions_allow", outcomes[1]);
     res.cov("decisions_deny", outcomes[0]);
+    res.cov("identity_attribute_combination_decisions", id_combo_evals);
     res.cov("unspecified_url_cases_only_checked_for_order_independence", skipped);
     res.cov("exhaustive", true);
     res.cov(
